@@ -26,7 +26,7 @@ import html
 import io
 import logging
 import math
-from typing import cast, NamedTuple
+from typing import ClassVar, cast, NamedTuple
 
 import flask
 
@@ -94,6 +94,8 @@ class MediaRequestBase(RequestHandlerBase):
     """
     Base class for serving media segments
     """
+    # True when segment times are counted from the start of a Period
+    PERIOD_RELATIVE_TIMES: ClassVar[bool] = False
 
     def generate_init_segment(
             self,
@@ -222,6 +224,12 @@ class MediaRequestBase(RequestHandlerBase):
             traf.trun.flags |= mp4.TrackFragmentRunBox.data_offset_present
 
         tfdt.base_media_decode_time += origin_time
+        if options.mode == 'live' or self.PERIOD_RELATIVE_TIMES:
+            # the decode times of a live stream are counted from
+            # availabilityStartTime and those of a multi-period stream from
+            # the start of the Period. The stored media does not have to
+            # start at time zero
+            tfdt.base_media_decode_time -= representation.start_time
 
         # Update the sequenceNumber field in the MovieFragmentHeader
         # box
@@ -529,6 +537,7 @@ class ServeMpsInitSeg(MediaRequestBase):
 
 class ServeMpsMedia(MediaRequestBase):
     decorators = [uses_multi_period_stream]
+    PERIOD_RELATIVE_TIMES: ClassVar[bool] = True
 
     def get(self,
             mode: str,  # 'vod' | 'live'
